@@ -709,7 +709,9 @@ def pvc_setup(ctx):
     open_cms = []
     content = z3.String("file content")
     loaded_file = {"mapping": {"a": 1}, "list": ["f1.txt"], "scalar-int": z3.Int("loaded")}[content_kind]
-    loaded_text = z3.Int("text loaded as a number")
+    # what the loader makes of a text that is not a path: a number (or another non-text value), the text itself, or *another* text ("'007'" loads to "007")
+    text_loads_to = ["a-number", "the-same-text", "another-text(quotes removed)"][ctx.choose(3, "the-text-loads-to")] if kind in ("text-not-a-path", "nested-arg-with-text") else "a-number"
+    loaded_text = {"a-number": z3.Int("text loaded as a number"), "the-same-text": text, "another-text(quotes removed)": z3.String("text loaded as another text")}[text_loads_to]
     the_path = Rec("Path", attrs={"tag": "the file"}, methods={"get_content": lambda c, s_, a, k: (c.event("read", list(open_cms)), content)[1]})
 
     def path_ctor(c, a, k):
@@ -727,7 +729,7 @@ def pvc_setup(ctx):
     cms = {"cfg_path.relative_path_context": (lambda c, a, k: open_cms.append("relative to the file"), lambda c, t, e: (open_cms.pop(), False)[1])}
     consts = {"NestedArg": ClassRef("NestedArg"), "str": ClassRef("str")}
     return Setup(env={"value": value, "enable_path": enable_path, "simple_types": simple}, calls=calls, cms=cms, consts=consts,
-                 data=dict(kind=kind, enable_path=enable_path, content_kind=content_kind, text=text, the_path=the_path, loaded_file=loaded_file, loaded_text=loaded_text, content=content, open_cms=open_cms, simple=simple, inner=inner))
+                 data=dict(text_loads_to=text_loads_to, kind=kind, enable_path=enable_path, content_kind=content_kind, text=text, the_path=the_path, loaded_file=loaded_file, loaded_text=loaded_text, content=content, open_cms=open_cms, simple=simple, inner=inner))
 
 
 def pvc_post(ctx, st, result):
@@ -753,6 +755,11 @@ def pvc_post(ctx, st, result):
             ctx.oblige("post", "a-mapping-read-from-a-file-remembers-the-file-under-__path__" + tag, isinstance(inner, dict) and inner.get("__path__") is d["the_path"] and inner.get("a") == 1)
         elif d["content_kind"] == "list":
             ctx.oblige("post", "a-list-read-from-a-file-is-returned-as-loaded" + tag, inner is d["loaded_file"])
+    if d["text_loads_to"] != "a-number" and not from_file:
+        inner2 = val.attrs["val"] if isinstance(val, Rec) and val.cls == "NestedArg" else val
+        # a text stays the text given when the loader reads it as a text - also as *another* text: "'007'" is the three characters with their quotes, not a config
+        # (normalising it to 007 would make the next parse of the result read the number 7: C10)
+        ctx.oblige("post", f"a-text-that-loads-to-a-text-stays-the-text-given[{d['text_loads_to']}]" + tag, inner2 is d["text"])
     if d["kind"].startswith("nested-arg"):
         ctx.oblige("post", "a-dotted-sub-option-keeps-its-key" + tag, isinstance(val, Rec) and val.cls == "NestedArg" and val.attrs.get("key") == "k")
 
